@@ -709,6 +709,7 @@ class Extractor:
                 continue
             ty = m['type']
             ty = re.sub(r'\bstd::', '', ty)
+            ty = re.sub(r'^const\s+', '', ty)  # const data members are set by the ctor-initialiser
             ty = typemap.get(ty, ty)
             if '<' in ty or '::' in ty:
                 raise ExtractionError('member %s::%s has type %s which needs a typemap entry' % (cls, m['name'], ty))
@@ -910,7 +911,11 @@ class Extractor:
             rep['rules']['callmap:%s' % nm] = k
         # unit-specific rewrites (must fire)
         for rx, repl, mn in blk.rewrites:
-            inner, k = re.subn(rx, repl, inner, flags=re.S)
+            def keep_lines(m, repl=repl):
+                r = m.expand(repl)
+                lost = m.group(0).count('\n') - r.count('\n')
+                return r + '\n' * max(0, lost)
+            inner, k = re.subn(rx, keep_lines, inner, flags=re.S)
             rep['rewrites'].append(dict(regex=rx, repl=repl, hits=k, min=mn))
             if k < mn:
                 raise ExtractionError('%s: must-fire rewrite %r fired %d < %d times' % (a['cname'], rx, k, mn))
